@@ -367,3 +367,73 @@ def replay_write_port(fn, via, cls, is128):
                     break
         return {'case': {'port': port, 'value': value, 'out7ffd': o, 'outfffd': outfffd, 'is128': is128}, 'diffs': d}
     return rp
+
+
+# ---------------------------------------------------------------------------------------------------------------------
+# skoolutils.Memory.copy (used by #SIM, #PUSHS/#POPS and the ASM writer's snapshot stack)
+def check_memory_copy(rep, prop):
+    """E over the finite space the method can distinguish: every value of port 0x7FFD (256) x the content-equality
+    pattern of the banks and ROMs (all different; all RAM banks identical; the paged bank identical to bank 0 only;
+    the two ROMs identical) - copy() looks at contents only through list equality, so these patterns cover it.
+    Contract: the copy satisfies the representation invariant of the class for the same o7ffd (memory[3] is its own
+    banks[o7ffd % 8], memory[0] is its own roms[(o7ffd % 32) // 16], banks 5 and 2 at 0x4000 / 0x8000), holds the same
+    bytes everywhere, shares no list with the original, and the original is untouched."""
+    import time
+    import skoolkit.skoolutils as su
+    t0 = time.time()
+    name = 'skoolkit.skoolutils.Memory.copy'
+    n = 0
+    bad = []
+    for pattern in ('distinct', 'all_equal', 'paged_equals_bank0', 'roms_equal'):
+        for o in range(256):
+            n += 1
+            page, romid = o % 8, (o % 32) // 16
+            if pattern == 'distinct' or pattern == 'roms_equal':
+                banks = [[i + 1] * 0x4000 for i in range(8)]
+            elif pattern == 'all_equal':
+                banks = [[0] * 0x4000 for i in range(8)]
+            else:
+                banks = [[i + 1] * 0x4000 for i in range(8)]
+                banks[page] = list(banks[0])
+            roms = ([7] * 0x4000, [7] * 0x4000) if pattern == 'roms_equal' else ([8] * 0x4000, [9] * 0x4000)
+            m = su.Memory(banks=banks, roms=roms)
+            m.out7ffd(o)
+            before = ([list(b) for b in m.banks], [list(r) for r in m.roms])
+            try:
+                c = m.copy()
+            except Exception as ex:
+                bad.append((pattern, o, 'exception %r' % (ex,)))
+                continue
+            why = None
+            if c.o7ffd != o:
+                why = 'o7ffd is %r' % (c.o7ffd,)
+            elif c.memory[3] is not c.banks[page]:
+                why = 'memory[3] (0xC000) is bank %s of the copy, not bank %d' % ([i for i, b in enumerate(c.banks) if b is c.memory[3]], page)
+            elif c.memory[0] is not c.roms[romid]:
+                why = 'memory[0] is ROM %s of the copy, not ROM %d' % ([i for i, r in enumerate(c.roms) if r is c.memory[0]], romid)
+            elif c.memory[1] is not c.banks[5] or c.memory[2] is not c.banks[2]:
+                why = 'banks 5 / 2 are not the ones at 0x4000 / 0x8000'
+            elif [list(b) for b in c.banks] != before[0] or [list(r) for r in c.roms] != before[1]:
+                why = 'contents differ'
+            elif any(x is y for x in list(c.banks) + list(c.roms) for y in list(m.banks) + list(m.roms)):
+                why = 'the copy shares a bank with the original'
+            elif ([list(b) for b in m.banks], [list(r) for r in m.roms]) != before or m.memory[3] is not m.banks[page]:
+                why = 'the original was modified'
+            if why:
+                bad.append((pattern, o, why))
+    rep.add_bulk(n - len(bad), 'exhaustive', time.time() - t0, name, n=n)
+    rep.exhaustive.append({'domain': 'skoolutils.Memory.copy: o7ffd 0..255 x 4 content-equality patterns of banks / ROMs', 'size': n, 'visited': n, 'complete': True})
+    seen = set()
+    for pattern, o, why in bad:
+        key = '%s/%s/%s' % (prop, name, pattern)
+        if key in seen:
+            continue
+        seen.add(key)
+        rep.violation(key, 'Memory.copy() with o7ffd=%d, banks %s: %s' % (o, pattern, why), {'case': {'memory_copy': pattern, 'o7ffd': o}, 'observed': why})
+
+
+def replay_memory_copy():
+    from props import common
+    rep = common.SubReport('C08')
+    check_memory_copy(rep, 'C08')
+    return rep.pending
